@@ -38,6 +38,17 @@ pub mod verif_hook {
     pub fn finish() -> Option<Vec<String>> {
         LOG.with(|l| l.borrow_mut().take())
     }
+    thread_local! {
+        static LOOPS: std::cell::Cell<u32> = const { std::cell::Cell::new(0) };
+    }
+    /// A fresh id for one run of an instrumented parser loop (`Li <id> <loop>|state` is logged at
+    /// the head of each of its iterations).
+    pub fn loop_enter() -> u32 {
+        LOOPS.with(|c| {
+            c.set(c.get().wrapping_add(1));
+            c.get()
+        })
+    }
     pub fn log(f: impl FnOnce() -> String) {
         LOG.with(|l| {
             if let Some(v) = l.borrow_mut().as_mut() {
